@@ -281,7 +281,7 @@ theorem removeTx_same (s : State) (t : Tx) (oob : Bool) :
   · exact (same_allRemove _ _).trans (same_pricedRemoved _ _)
   · exact same_allRemove _ _
 
-theorem removeTx_core {s : State} (h : AllJ s) (t : Tx) (oob : Bool) :
+theorem removeTx_coreA {s : State} (h : AllJ s) (t : Tx) (oob : Bool) :
     AllJ (s.removeTx t oob) ∧
     (∀ b, PNa (s.acct b) → PNa ((s.removeTx t oob).acct b)) ∧
     (∀ b, PNw (s.acct b) → PNw ((s.removeTx t oob).acct b)) := by
@@ -296,13 +296,13 @@ theorem removeTx_core {s : State} (h : AllJ s) (t : Tx) (oob : Bool) :
     · rw [hs0.acct b]; exact hb
 
 theorem AllJ.removeTx {s : State} (h : AllJ s) (t : Tx) (oob : Bool) : AllJ (s.removeTx t oob) :=
-  (removeTx_core h t oob).1
+  (removeTx_coreA h t oob).1
 
 theorem AllI.removeTx {s : State} (h : AllI s) (t : Tx) (oob : Bool) : AllI (s.removeTx t oob) :=
-  ⟨(removeTx_core h.1 t oob).1, fun b => (removeTx_core h.1 t oob).2.1 b (h.2 b)⟩
+  ⟨(removeTx_coreA h.1 t oob).1, fun b => (removeTx_coreA h.1 t oob).2.1 b (h.2 b)⟩
 
 theorem AllM.removeTx {s : State} (h : AllM s) (t : Tx) (oob : Bool) : AllM (s.removeTx t oob) :=
-  ⟨(removeTx_core h.1 t oob).1, fun b => (removeTx_core h.1 t oob).2.2 b (h.2 b)⟩
+  ⟨(removeTx_coreA h.1 t oob).1, fun b => (removeTx_coreA h.1 t oob).2.2 b (h.2 b)⟩
 
 theorem frame_removeTx (s : State) (t : Tx) (oob : Bool) : Frame s (s.removeTx t oob) := by
   unfold State.removeTx
